@@ -14,6 +14,7 @@
 //	files, err = schema.Unmarshal(raw)                // inverse (wire form keeps unknown option fields, unlike protojson)
 //	txt := schema.Text(files)                         // one-line prototext per file, for humans reading a replay file
 //	labels := schema.Constructs(files)                // sorted construct labels ("map", "default:bytes", "editions:2024", …)
+//	reg0, err := schema.NewRegistry(files)            // registry with only the well-known imports, to build the set by hand
 //	set := schema.FileSet(files)                      // FileDescriptorSet incl. the well-known files the set imports (for protodesc.NewFiles)
 //
 // A pbt case holds `Raw [][]byte` (+ optionally `Text []string`, never consulted by the check); the
@@ -207,6 +208,27 @@ func wellKnownClosure(files []*descriptorpb.FileDescriptorProto) ([]protoreflect
 		}
 	}
 	return out, nil
+}
+
+// WellKnownImports returns the linked (global) files the set imports, transitively, dependencies first.
+func WellKnownImports(files []*descriptorpb.FileDescriptorProto) ([]protoreflect.FileDescriptor, error) {
+	return wellKnownClosure(files)
+}
+
+// NewRegistry returns a fresh registry holding only the well-known files the set imports: the
+// starting point for building the set file by file.
+func NewRegistry(files []*descriptorpb.FileDescriptorProto) (*protoregistry.Files, error) {
+	reg := &protoregistry.Files{}
+	wk, err := wellKnownClosure(files)
+	if err != nil {
+		return nil, err
+	}
+	for _, fd := range wk {
+		if err := reg.RegisterFile(fd); err != nil {
+			return nil, err
+		}
+	}
+	return reg, nil
 }
 
 // Build turns a set into a fresh registry: protodesc.NewFile for each file in slice order, each
